@@ -15,7 +15,6 @@ import (
 	"github.com/btcsuite/btcd/txscript"
 	"github.com/btcsuite/btcd/wire"
 	"github.com/btcsuite/btcwallet/wallet/txauthor"
-	"github.com/btcsuite/btcwallet/wallet/txrules"
 	"github.com/btcsuite/btcwallet/wallet/txsizes"
 
 	"verif/internal/evid"
@@ -113,7 +112,7 @@ func dustThreshold(script []byte) btcutil.Amount {
 	lo, hi := int64(0), int64(5000)
 	for lo+1 < hi { // smallest non-dust value
 		mid := (lo + hi) / 2
-		if txrules.IsDustOutput(wire.NewTxOut(mid, script), txrules.DefaultRelayFeePerKb) {
+		if isDust(wire.NewTxOut(mid, script), defaultRelayFeePerKb) {
 			lo = mid
 		} else {
 			hi = mid
@@ -205,11 +204,11 @@ func one(r *evid.Run, rg *rand.Rand, idx int, cs int64) {
 		for _, c := range coins[:k] {
 			sub += btcutil.Amount(c.out.Value)
 		}
-		need := target + txrules.FeeForSerializeSize(rate, estAll(coins[:k]))
+		need := target + feeFor(rate, estAll(coins[:k]))
 		deltas := []int64{-1, 0, 1, int64(dust) - 1, int64(dust), int64(dust) + 1, -int64(dust), 5, 68, 150}
 		if placement == 3 {
 			// just enough for the first fee guess (one P2WPKH input) but not for the real inputs
-			first := txrules.FeeForSerializeSize(rate, txsizes.EstimateVirtualSize(0, 0, 1, 0, outputs, cs2.ScriptSize))
+			first := feeFor(rate, txsizes.EstimateVirtualSize(0, 0, 1, 0, outputs, cs2.ScriptSize))
 			need = target + first
 			deltas = []int64{0, 1, 10, 30}
 		}
@@ -280,7 +279,7 @@ func one(r *evid.Run, rg *rand.Rand, idx int, cs int64) {
 			return
 		}
 		// most conservative reading: all offered coins, worst-case estimate with change
-		need := target + txrules.FeeForSerializeSize(rate, estAll(coins))
+		need := target + feeFor(rate, estAll(coins))
 		if total >= need {
 			_, tr, _, _ := countKinds(scripts(coins))
 			key := "c07:insufficient-but-covers"
@@ -339,7 +338,7 @@ func one(r *evid.Run, rg *rand.Rand, idx int, cs int64) {
 	a, b, c, d := countKinds(atx.PrevScripts)
 	est := txsizes.EstimateVirtualSize(a, b, c, d, outputs, cs2.ScriptSize)
 	hasChange := atx.ChangeIndex >= 0
-	if real := txrules.FeeForSerializeSize(rate, vsize); fee < real {
+	if real := feeFor(rate, vsize); fee < real {
 		key := "c07:fee-below-real-size"
 		if nout+1 >= 253 && nout < 253 && hasChange {
 			key += ":change-crosses-253-outputs"
@@ -347,13 +346,13 @@ func one(r *evid.Run, rg *rand.Rand, idx int, cs int64) {
 		r.Violation(key, fmt.Sprintf("%s: fee %d < rate x real signed vsize %d (vsize %d, estimate %d, inputs p2pkh/tr/wpkh/nested %d/%d/%d/%d, change=%v)", desc, fee, real, vsize, est, a, b, c, d, hasChange), "author", cs, detail(""))
 		return
 	}
-	if max := txrules.FeeForSerializeSize(rate, est) + dust; fee > max {
-		r.Violation("c07:fee-above-band", fmt.Sprintf("%s: fee %d > rate x worst-case estimate %d + dust threshold %d (selection rounds %d)", desc, fee, txrules.FeeForSerializeSize(rate, est), dust, calls), "author", cs, detail(""))
+	if max := feeFor(rate, est) + dust; fee > max {
+		r.Violation("c07:fee-above-band", fmt.Sprintf("%s: fee %d > rate x worst-case estimate %d + dust threshold %d (selection rounds %d)", desc, fee, feeFor(rate, est), dust, calls), "author", cs, detail(""))
 		return
 	}
 	if hasChange {
 		co := atx.Tx.TxOut[atx.ChangeIndex]
-		if co.Value <= 0 || txrules.IsDustOutput(co, txrules.DefaultRelayFeePerKb) {
+		if co.Value <= 0 || isDust(co, defaultRelayFeePerKb) {
 			r.Violation("c07:dust-change", fmt.Sprintf("%s: change output of %d is zero or dust", desc, co.Value), "author", cs, detail(""))
 			return
 		}
@@ -403,7 +402,7 @@ func scripts(cs []coin) [][]byte {
 func main() {
 	r := evid.New(P, "exploration")
 	r.Rule("generated authoring requests: output counts {0,1,2,3,5,10,40,250..255 each,300,600} of P2PKH/P2WPKH/P2SH/P2WSH/P2TR/OP_RETURN scripts, rates 1000..500000 sat/kvB, coin multisets of 1..260 inputs mixing P2PKH/P2WPKH/nested-P2WPKH/P2TR (or one kind), every change script type, three input-source behaviours (all at once / incremental in order / incremental largest-first), amounts placed deliberately at target+fee-1/+0/+1, at the change dust threshold +-1, on a PREFIX of the coins (forces several selection rounds), and at 'enough for the first fee guess only'. Each result of the real NewUnsignedTransaction is signed for real (AddAllInputScripts with a harness key ring), its real virtual size measured, every input executed in the script engine, and judged: outputs unchanged, inputs = outputs + fee, fee >= rate x real vsize, fee <= rate x worst-case estimate + dust threshold, no zero/dust change, insufficient-funds only if all offered coins cannot cover outputs + worst-case fee. A wallet-level phase drives the same inequalities through the wallet's own input source: funded wallets author (CreateSimpleTx, not published) 40 requests each with amounts placed on the k largest eligible coins minus 110..1100 vB worth of fee, so that a second selection round is needed; inputs must be distinct ledger coins, TotalInput their real worth, requested outputs present unchanged, change not dust, fee within the band against the real signed size. Non-trivial = successfully authored, signed and measured; distinct = distinct request descriptions.")
-	r.Trusted("btcd mempool.GetTxVirtualSize, txscript.Engine with StandardVerifyFlags", "txrules.IsDustOutput / FeeForSerializeSize as the statement's own arithmetic")
+	r.Trusted("btcd mempool.GetTxVirtualSize, txscript.Engine with StandardVerifyFlags", "btcd mempool.IsDust as the dust policy (fee arithmetic is the harness's own: rate x size / 1000)")
 	r.Assume("uncompressed-key P2PKH inputs are excluded (documented as unreliable; an HD wallet never produces them)", "input sources honour the InputSource contract (return at least the target when they can)")
 	n := r.N(2500, 200000)
 	r.Parallel("author", n, evid.Workers(), func(i int, cs int64) {
